@@ -17,6 +17,7 @@ package main
 
 import (
 	"bytes"
+	"context"
 	"crypto/sha1"
 	"encoding/hex"
 	"encoding/json"
@@ -24,19 +25,24 @@ import (
 	"fmt"
 	"io"
 	"os"
+	"os/exec"
 	"runtime"
 	"sort"
 	"strconv"
 	"strings"
 	"sync"
 	"sync/atomic"
+	"time"
 
 	"github.com/zerx-lab/wordZero/pkg/document"
 	"github.com/zerx-lab/wordZero/pkg/markdown"
 	"github.com/zerx-lab/wordZero/pkg/style"
 )
 
-func init() { register("iso", runIso) }
+func init() {
+	register("iso", runIso)
+	register("isosolo", runIsoSoloChild)
+}
 
 // ---------------------------------------------------------------- documents
 
@@ -510,13 +516,82 @@ func isoProbeHooks() bool {
 
 // isoSoloRun is the outcome of one per-document program run alone.
 type isoSoloRun struct {
-	ops   []Op
-	rets  []string
-	views []map[string]interface{}
+	Ops   []Op                     `json:"ops"`
+	Rets  []string                 `json:"rets"`
+	Views []map[string]interface{} `json:"views"`
 }
 
-// A solo run is a function of (document name, program): it is computed once per process.
-var isoSoloMemo = map[string]*isoSoloRun{}
+// A solo run is a function of (document name, program): it is computed once per harness process.
+var (
+	isoSoloMemo = map[string]*isoSoloRun{}
+	// isoSoloInProc: compute baselines in this process (after a registry reset) instead of in a
+	// process of their own. Used by the race parent, which executes nothing but baselines.
+	isoSoloInProc bool
+	isoSoloDir    string
+)
+
+func isoSoloRunHere(d string, prog []Op) *isoSoloRun {
+	document.VerifResetGlobals()
+	st := isoNewDoc(d)
+	r := &isoSoloRun{Ops: prog, Rets: []string{}, Views: []map[string]interface{}{isoView(st)}}
+	for _, op := range prog {
+		ret, _ := isoExec(st, op)
+		r.Rets = append(r.Rets, ret)
+		r.Views = append(r.Views, isoView(st))
+	}
+	return r
+}
+
+// runIsoSoloChild executes one program on one document in a process of its own ("alone").
+func runIsoSoloChild(c Case, emit Emitter) {
+	names, progs := isoPrograms(c.Steps)
+	for _, d := range names {
+		r := isoSoloRunHere(d, progs[d])
+		emit(Ev{"ev": "solorun", "d": d, "ops": r.Ops, "rets": r.Rets, "views": r.Views})
+	}
+}
+
+func isoSoloSpawn(d string, prog []Op) *isoSoloRun {
+	if isoSoloDir == "" {
+		dir, err := os.MkdirTemp(".", "isosolo-")
+		if err != nil {
+			fmt.Fprintln(os.Stderr, "isosolo:", err)
+			os.Exit(2)
+		}
+		isoSoloDir = dir
+	}
+	steps := []Op{}
+	for _, op := range prog {
+		steps = append(steps, Op{"d": d, "op": op.Str("op"), "a": op.Str("a"), "sub": "call"})
+	}
+	if len(steps) == 0 {
+		return isoSoloRunHere(d, prog)
+	}
+	cf, of := isoSoloDir+"/case.ndjson", isoSoloDir+"/obs.ndjson"
+	cj, _ := json.Marshal(Case{ID: 0, Steps: steps})
+	os.WriteFile(cf, append(cj, '\n'), 0o644)
+	os.Remove(of)
+	ctx, cancel := context.WithTimeout(context.Background(), 120*time.Second)
+	defer cancel()
+	cmd := exec.CommandContext(ctx, os.Args[0], "isosolo", cf, of)
+	var se bytes.Buffer
+	cmd.Stderr = &se
+	if err := cmd.Run(); err != nil {
+		fmt.Fprintf(os.Stderr, "isosolo: baseline process failed (%v):\n%s\n", err, se.String())
+		os.Exit(2)
+	}
+	data, err := os.ReadFile(of)
+	var r isoSoloRun
+	if err == nil {
+		err = json.Unmarshal(bytes.TrimSpace(data), &r)
+	}
+	if err != nil || len(r.Views) != len(prog)+1 {
+		fmt.Fprintf(os.Stderr, "isosolo: cannot read the baseline of %s (%v)\n", d, err)
+		os.Exit(2)
+	}
+	r.Ops = prog
+	return &r
+}
 
 func isoSoloOf(d string, prog []Op) *isoSoloRun {
 	kj, _ := json.Marshal(prog)
@@ -524,13 +599,30 @@ func isoSoloOf(d string, prog []Op) *isoSoloRun {
 	if r, ok := isoSoloMemo[key]; ok {
 		return r
 	}
-	document.VerifResetGlobals()
-	st := isoNewDoc(d)
-	r := &isoSoloRun{ops: prog, rets: []string{}, views: []map[string]interface{}{isoView(st)}}
-	for _, op := range prog {
-		ret, _ := isoExec(st, op)
-		r.rets = append(r.rets, ret)
-		r.views = append(r.views, isoView(st))
+	var r *isoSoloRun
+	if isoSoloInProc {
+		r = isoSoloRunHere(d, prog)
+	} else {
+		// the harness processes of one check run (shards, stages) share their working directory:
+		// a baseline computed by one of them is reused by the others
+		os.MkdirAll("isosolo-cache", 0o755)
+		file := "isosolo-cache/" + isoHash([]byte(key)) + isoHash([]byte("#"+key)) + ".json"
+		if data, err := os.ReadFile(file); err == nil {
+			var c isoSoloRun
+			if json.Unmarshal(data, &c) == nil && len(c.Views) == len(prog)+1 {
+				c.Ops = prog
+				r = &c
+			}
+		}
+		if r == nil {
+			r = isoSoloSpawn(d, prog)
+			if data, err := json.Marshal(r); err == nil {
+				tmp := fmt.Sprintf("%s.%d.tmp", file, os.Getpid())
+				if os.WriteFile(tmp, data, 0o644) == nil {
+					os.Rename(tmp, file)
+				}
+			}
+		}
 	}
 	if len(isoSoloMemo) > 50000 {
 		isoSoloMemo = map[string]*isoSoloRun{}
@@ -543,10 +635,10 @@ func isoSolo(c Case, names []string, progs map[string][]Op, tab *isoIntern, emit
 	for _, d := range names {
 		r := isoSoloOf(d, append(append([]Op{}, progs[d]...), isoFinalOp))
 		ids := []string{}
-		for _, v := range r.views {
+		for _, v := range r.Views {
 			ids = append(ids, tab.id(v))
 		}
-		tab.emit(emit, Ev{"ev": "solo", "case": c.ID, "d": d, "ops": r.ops, "rets": r.rets, "views": ids})
+		tab.emit(emit, Ev{"ev": "solo", "case": c.ID, "d": d, "ops": r.Ops, "rets": r.Rets, "views": ids})
 	}
 }
 
